@@ -20,6 +20,10 @@ def obligations(tier, ctx):
                           params=[("exited", "bool"), ("on_term", "bool"), ("on_kill", "bool"), ("term_raises", "bool")], pre=[],
                           call=f"H.shutdown(exited, on_term, on_kill, term_raises, {tg_mode}, {outer}, True)", backend="P", timeout=120,
                           family="shutdown control logic"))
+    for tg_mode in (0, 1):
+        obs.append(Ob(name=f"shutdown_after_stdout_eof_tg{tg_mode}", params=[("exited", "bool"), ("on_term", "bool"), ("on_kill", "bool"), ("outer", "bool")], pre=[],
+                      call=f"H.shutdown(exited, on_term, on_kill, False, {tg_mode}, outer, True, False, True)", backend="P", timeout=120,
+                      family="shutdown control logic after the reader saw end-of-stream"))
     obs.append(Ob(name="shutdown_kill_raises", params=[("on_term", "bool"), ("outer", "bool"), ("tg", "int")], pre=["0 <= tg <= 4"],
                   call="H.shutdown(False, on_term, False, False, tg, outer, True, True)", backend="P", timeout=120, family="shutdown control logic"))
     obs.append(Ob(name="shutdown_no_taskgroup", params=[("exited", "bool"), ("on_term", "bool"), ("on_kill", "bool"), ("term_raises", "bool"), ("outer", "bool")], pre=[],
